@@ -10,10 +10,13 @@ a3) per-field xor filter: FieldXorFilter::new and contains hash with the same si
 a4) RangePruner: Gt/Gte probe zones_overlapping_ge(exclusive/inclusive), Lt/Lte probe zones_overlapping_le(exclusive/inclusive).
 b) TemporalPruner: per-zone overlap guards are Gt -> max_ts > ts, Gte -> max_ts >= ts, Lt -> min_ts < ts, Lte -> min_ts <= ts (op x field table); the Eq path keeps a zone only via contains_ts.
 c1) context index completeness: ZoneWriter::write_all inserts (event type, context id, zone id) into the ZoneIndex for every event of every zone plan — no iteration of the two loops skips the insert.
+c2) calendar completeness: TemporalCalendarIndex::add_zone_range registers a zone in every hour bucket and every day bucket its range covers — the bucket inserts are guarded only by the
+   running-timestamp <= range-end loop conditions (no size- or constant-based exemption; the equality lookup trusts an hour bucket when one exists).
+c3) SuRF probe completeness: ZoneSurfFilter::zones_overlapping_{ge,le} probe every zone entry — the loop over self.entries has no early exit.
 Noted, not armed: index-build errors in ZoneWriter::write_all are logged while the catalog is written from the plan; temporal pruner skips a zone whose temporal index fails to load.
 """
-FLOOR = 6
-REQUIRED = ["C08.a1", "C08.a2", "C08.a3", "C08.a4", "C08.b", "C08.c1"]
+FLOOR = 8
+REQUIRED = ["C08.a1", "C08.a2", "C08.a3", "C08.a4", "C08.b", "C08.c1", "C08.c2", "C08.c3"]
 
 
 def family(F, b):
@@ -185,6 +188,63 @@ def run(ctx):
             bad.append(("zone-index-zone", "the zone id recorded in the zone index does not come from the iterated zone plan", None))
         return bad
     ctx.run("C08.c1", "K9 LOOP", "ZoneWriter::write_all (context index)", "every (context, zone) pair that holds a row is listed in the zone index", c1)
+
+    def c2(inst):
+        b = F.fn("TemporalCalendarIndex::add_zone_range")
+        ins = [c for c in b.find_calls(r"^roaring::.*::insert$")]
+        if len(ins) < 2:
+            raise AnchorMissing("hour and day bucket inserts (%d)" % len(ins))
+        bad = []
+        which = {}
+        for c in ins:
+            L = fmt_leaves(b.origins(c.args[0], transparent=re.compile(TRANSPARENT.pattern[:-2] + r"|.*Entry.*::or_default|.*HashMap.*::entry)$")))
+            gran = "hour" if ".hour" in L else ("day" if ".day" in L else "?")
+            which[gran] = c
+            # every comparison on whose outcome the insert depends
+            guards = []
+            for i in b.live_blocks():
+                if b.blocks[i]["t"]["t"] != "switch":
+                    continue
+                si = b.switch_info(i)
+                d = si.get("def") if si and si["kind"] == "bool" else None
+                if not d or d.get("r") != "bin" or d["op"] not in ("Le", "Lt", "Ge", "Gt", "Eq", "Ne"):
+                    continue
+                for truth, tgt in ((True, si["true"]), (False, si["false"])):
+                    if tgt is not None and b.dominates_edge((i, tgt), c.bb):
+                        A, B_ = b.origins(d["a"]), b.origins(d["b"])
+                        consts = [l for l in (A | B_) if l[0] in ("const", "constitem")]
+                        both_bucket = all(any(l[0] == "call" and "naive_bucket_of" in l[1] or l[0] == "binop" for l in S) for S in (A, B_))
+                        guards.append((d["op"], truth, bool(consts), both_bucket))
+            inst.sites.append("%s bucket insert guarded by %s" % (gran, [(g[0], g[1]) for g in guards]))
+            for g in guards:
+                if g[2] or not g[3]:
+                    bad.append(("calendar-bucket-exemption:%s" % gran, "the %s-bucket registration of a zone depends on a comparison that is not the range loop's `t <= end` (constant or size based): zones exempted from a bucket are ruled out by the equality lookup, which trusts an existing bucket" % gran, None))
+            if not guards:
+                bad.append(("calendar-loop-missing:%s" % gran, "no range loop guards the %s bucket insert" % gran, None))
+        if set(which) != {"hour", "day"}:
+            raise AnchorMissing("bucket inserts found for %s" % sorted(which))
+        return bad
+    ctx.run("C08.c2", "K8 GUARD", "TemporalCalendarIndex::add_zone_range", "a zone is registered in every calendar bucket it covers", c2)
+
+    def c3(inst):
+        bad = []
+        for nm in ("ZoneSurfFilter::zones_overlapping_ge", "ZoneSurfFilter::zones_overlapping_le"):
+            b = F.fn(nm)
+            nxs = loop_nexts(b, lambda L: has_origin(L, "param", "self", proj_contains=[".entries"]))
+            if not nxs:
+                raise AnchorMissing("loop over self.entries in %s" % nm)
+            probe = b.find_calls(r"SurfQuery::may_overlap_(ge|le)_with_stats$")
+            if not probe:
+                raise AnchorMissing("probe call in %s" % nm)
+            inst.sites.append("%s: %s" % (nm.split("::")[-1], sp(b, nxs[0].bb)))
+            w = early_exit(b, nxs[0])
+            if w:
+                bad.append(("probe-loop-early-exit:%s" % nm.split("::")[-1], "%s can stop before all zone entries were probed: unprobed zones are ruled out" % nm, w))
+            w2 = skipped_iteration(b, nxs[0], [p.bb for p in probe])
+            if w2:
+                bad.append(("probe-skipped:%s" % nm.split("::")[-1], "%s can skip the probe of a zone entry" % nm, w2))
+        return bad
+    ctx.run("C08.c3", "K9 LOOP", "ZoneSurfFilter::zones_overlapping_{ge,le}", "every zone's filter is probed", c3)
 
     ctx.note("ZoneWriter::write_all logs index-build errors and writes the catalog from the plan (listed-but-missing index); not armed: needs a build fault to manifest")
     ctx.note("TemporalPruner drops a zone whose per-zone temporal index fails to load, and returns Some(empty) when the timestamp calendar is missing; not armed (fault clause)")
